@@ -12,24 +12,25 @@ TECH = {
     "C04": "ENS (leg provenance as term equality) + ACC/REJ acceptance conditions of spider constructors",
     "C05": "struct-invariant obligations (INV) at every public return + ACC/REJ of checked constructors + non_exhaustive witness",
     "C06": "INV_FF + ACC/REJ exactness of partial operations + panic-path infeasibility (own LP prover)",
-    "C07": "symbolic interpretation of the trait default methods against the array contract axioms (to_range exact per Bound form)",
+    "C07": "sibling agreement: each VecArray primitive is interpreted symbolically (loops summarised exactly by fold idioms) and its result must be term-equal to the array contract's transfer function on the same arguments; trait default methods against the contract axioms (to_range exact per Bound form); coverage rule VECCOVER",
     "C08": "INV_IC + ENS segment counts + iterator remaining-length/advance specs",
     "C09": "post-state term equalities on Ok and Err outcomes (atomicity), cover of every node reference, DELEG rule",
     "C10": "same term-level spec for pure and in-place operations; ACC/REJ of compose/lax_compose; INV of conversions",
     "C11": "post-state specs with frame conditions for builders; structural DELETE rules (guard/pair/cover); serde facts + README keys",
     "C12": "typing as label-array term equality under documented functor contracts (FNAT rule), all glue unwraps infeasible",
-    "C13": "ACC: Some implies no pending unification; INV of result and witness; Option propagation (no panic path)",
+    "C13": "ACC/REJ: Some implies no pending unification and None only with pending unifications (totality under the functor contract); INV of result and witness; Option propagation (no panic path)",
     "C14": "typing of map_object/map_operations/adapt as ordered label-array terms under A_F1/A_F2/A_O",
-    "C15": "panic-path infeasibility incl. Houdini loop invariants for kahn; result shape ENS; DEP",
-    "C16": "ACC/REJ on the unvisited guard; panic-path infeasibility under A_E; DEP",
-    "C17": "panic-path infeasibility (array subtraction is an obligation in debug and release); DEP",
-    "C18": "ACC (all four naturality equalities entailed on Ok) + REJ per error variant; totality of convexity loop; DEP",
-    "C19": "shapecheck of Var/operator/forget code with a heap-handle model of Rc<RefCell>; REFCELL and SELFCMP structural rules",
-    "C20": "type-level witness (foreign ArrayKind type-checks) + genericity audit + compile_fail,E0639 witnesses",
+    "C15": "panic-path infeasibility incl. Houdini loop invariants for kahn; one-iteration step specification of kahn's loop as term equalities (checked premise of the trusted lemmas); result shape ENS; DEP",
+    "C16": "ACC/REJ on the unvisited guard; panic-path infeasibility under A_E; call-site obligation that apply receives labels and inputs of one selection; kahn step specification; DEP",
+    "C17": "panic-path infeasibility (array subtraction is an obligation in debug and release); exact boolean spec of is_monogamous / is_injective / is_discrete (result formula equivalent to the definition on every path); kahn step specification; DEP",
+    "C18": "ACC (all four naturality equalities entailed on Ok) + REJ per error variant; is_convex_subgraph true only on paths that established both injectivity facts; totality of convexity loop; DEP",
+    "C19": "shapecheck of Var/operator/forget code with a heap-handle model of Rc<RefCell>; Forget::map_operation keeps every non-variable operation as its own singleton; REFCELL and SELFCMP structural rules",
+    "C20": "type-level witness (foreign ArrayKind type-checks) + genericity audit + compile_fail,E0639 witnesses; obligations of the consumers of the backend's open choices proved against the array contract alone (uninterpreted numbering / tie order / filler)",
 }
 
 NOTE = ("Trusted: rustc name/type resolution (facts exported by the ohx rustc_private driver from /repo's working tree); "
-        "the array contract axioms transcribed from src/array/traits.rs (the Vec backend itself is not analysed); "
+        "the array contract axioms transcribed from src/array/traits.rs (the Vec backend is checked against them under C07, except "
+        "connected_components and sparse_bincount); "
         "documented contracts of user-supplied code (A_* assumptions listed in evidence); the term rules and the "
         "TRUSTED lemmas listed in evidence; no usize overflow of size additions. Arguments are assumed well-formed.")
 
